@@ -458,7 +458,7 @@ func (doc *T) derefPaths(paths map[string]*PathItem, refNameResolver RefNameReso
 		// a reference to a path item of this very document
 		// (below an external document such a reference closes a cycle of that document's path items:
 		// it cannot be inlined either; kept, it names the path of the same name of this document)
-		isLocalRef := strings.HasPrefix(ops.Ref, "#/paths/")
+		isLocalRef := strings.HasPrefix(ops.Ref, "#/")
 		// what hangs below a path item of an external document belongs to that document too
 		pathIsExternal := parentIsExternal || (!isLocalRef && isExternalRef(ops.Ref, parentIsExternal))
 		// inline full operations: a path item of another document cannot stay a reference. One of
